@@ -107,7 +107,7 @@ func genBody(r *hx.Rand, min int) []byte {
 func runNegotiate(seed uint64, n int, tier string, out string, replay string) {
 	rnd := hx.NewRand(seed)
 	sum := hx.NewSummary("negotiate", seed)
-	sum.Rule = "one case = one upstream answer (status, headers, one of the six documented encodings or a malformed stream, body from {empty, 1 B, min-1, min, min+1, random, repetitive, json}) x server settings (profile name registered/unregistered/best, min length 0/1/16/64, filter default/custom/non-matching; the same content types are reused under different filters within the process) x {not stored, stored via Cacheable, stored + persistence round trip}, served under 5 Accept-Encoding values drawn from 14 plain coding lists; non-trivial = compressible response (some variant above the threshold and type matches); distinct by (encoding, body, settings, path)"
+	sum.Rule = "one case = one upstream answer (status, headers, one of the six documented encodings or a malformed stream, body from {empty, 1 B, min-1, min, min+1, random, repetitive, json}) x server settings (profile name registered/unregistered/best, min length 0/1/16/64, filter default/custom/non-matching; the same content types are reused under different filters within the process) x {not stored, stored via Cacheable, stored + persistence round trip}, served under 5 Accept-Encoding values drawn from 14 plain coding lists; non-trivial = compressible response (some variant above the threshold and type matches); distinct by (encoding, body, settings, path); Go-side only: 4 large highly compressible bodies (20 KB-300 KiB, LZ4 ratios 198-254) in each of the six upstream encodings through NewHTTPResponse -> Cacheable -> Fill under 4 Accept-Encoding values, decoded with reference decoders"
 	header := "From Coq Require Import List NArith ZArith.\nImport ListNotations.\nFrom Pike Require Import Base.Bytes Model.MaxAge Model.Resp Corr.RespCorr.\n"
 	w := hx.NewCaseWriter(out, "negotiate", header, "list rs_case", "check_cases", 40, sum)
 	distinct := hx.NewDistinct()
@@ -351,6 +351,88 @@ func runNegotiate(seed uint64, n int, tier string, out string, replay string) {
 		term := pd.head + fmt.Sprintf("rc_gunzip_t := %s; rc_brdec_t := %s; ", hx.List(pd.gun.items), hx.List(pd.brd.items)) + pd.tail + "rc_serves := " + hx.List(pd.serves) + " |}"
 		w.Add(term, pd.rep)
 		sum.Sample(pd.rep)
+	}
+	// ---- Go-side only: large, highly compressible bodies in every upstream encoding (too big for Coq terms):
+	// fetch -> store -> serve under several Accept-Encoding values; decoded body must equal the origin's
+	bigs := map[string][]byte{
+		"20000 x 'a' (lz4 ratio ~198)":           bytes.Repeat([]byte("a"), 20000),
+		"'hello world, ' x 10000 (lz4 ratio ~239)": bytes.Repeat([]byte("hello world, "), 10000),
+		"300 KiB zeros (lz4 ratio ~254)":          make([]byte, 300<<10),
+		"64-byte pattern x 3000":                  bytes.Repeat(rnd.Bytes(64), 3000),
+	}
+	for name, orig := range bigs {
+		for _, enc := range []string{"", "gzip", "br", "lz4", "snz", "zst"} {
+			var data []byte
+			switch enc {
+			case "":
+				data = orig
+			case "gzip":
+				data, _ = compress.VerifGzip(orig, 6)
+			case "br":
+				data, _ = compress.VerifBrotli(orig, 6)
+			case "lz4":
+				data, _ = compress.VerifLZ4Encode(orig)
+			case "snz":
+				data = compress.VerifSnappyEncode(orig)
+			case "zst":
+				data, _ = compress.VerifZSTDEncode(orig, 2)
+			}
+			if len(data) == 0 {
+				continue
+			}
+			sum.Count("big-body:" + enc)
+			uph := http.Header{}
+			uph.Set("Content-Type", "text/plain")
+			uph.Set("X-End-To-End", "kept")
+			if enc != "" {
+				uph.Set("Content-Encoding", enc)
+			}
+			fail := func(stage string, detail string) {
+				sum.ImplViolations = append(sum.ImplViolations, map[string]interface{}{"property": "C05", "kind": "big-body", "body": name, "upstream_encoding": enc, "stream_len": len(data), "body_len": len(orig), "stage": stage, "detail": detail})
+			}
+			resp, err := cache.NewHTTPResponse(200, uph, enc, data)
+			if err != nil {
+				fail("NewHTTPResponse", err.Error())
+				continue
+			}
+			resp.CompressSrv = "bestCompression"
+			resp.CompressMinLength = 1024
+			hc := cache.NewHTTPCache()
+			hc.Get()
+			hc.Cacheable(resp, 60)
+			_, stored := hc.Get()
+			if stored == nil {
+				fail("Cacheable", "entry is not a hit")
+				continue
+			}
+			for _, acc := range []string{"", "gzip", "br", "gzip, br"} {
+				req := httptest.NewRequest("GET", "/", nil)
+				if acc != "" {
+					req.Header.Set("Accept-Encoding", acc)
+				}
+				c := elton.NewContext(httptest.NewRecorder(), req)
+				if err := stored.Fill(c); err != nil {
+					fail("Fill "+acc, err.Error())
+					continue
+				}
+				body := c.BodyBuffer.Bytes()
+				var dec []byte
+				var derr error
+				switch ce := c.GetHeader("Content-Encoding"); ce {
+				case "gzip":
+					dec, derr = refGunzip(body)
+				case "br":
+					dec, derr = refBrotliDecode(body)
+				case "":
+					dec = body
+				default:
+					derr = fmt.Errorf("unexpected Content-Encoding %q", ce)
+				}
+				if derr != nil || !bytes.Equal(dec, orig) || c.StatusCode != 200 || c.GetHeader("X-End-To-End") != "kept" {
+					fail("serve "+acc, fmt.Sprintf("decoded %d bytes, err %v, status %d", len(dec), derr, c.StatusCode))
+				}
+			}
+		}
 	}
 	w.Flush()
 	sum.DistinctNontrivial = distinct.Len()
